@@ -624,13 +624,13 @@ func runC16(cs *c16Case, scratch string, idx int, sr *run.ShardResult) (class, d
 		e := eng.NewExec(cfg, dir, false)
 		defer e.D.Detach()
 		var dseed = cs.Seed
-		e.D.Delay = func(point string) {
+		e.D.SetDelay(func(point string) {
 			x := atomic.AddUint64(&dseed, 0x9E3779B97F4A7C15)
 			x = (x ^ (x >> 30)) * 0xBF58476D1CE4E5B9
 			if (x>>20)%6 == 0 {
 				time.Sleep(time.Duration(10+(x>>8)%300) * time.Microsecond)
 			}
-		}
+		})
 		if err := e.Open(); err != nil {
 			return "inconclusive", "open: " + err.Error()
 		}
@@ -698,7 +698,7 @@ func runC16(cs *c16Case, scratch string, idx int, sr *run.ShardResult) (class, d
 		e := eng.NewExec(cs.Cfg, dir, false)
 		defer e.D.Detach()
 		var dseed = cs.Seed
-		e.D.Delay = func(point string) {
+		e.D.SetDelay(func(point string) {
 			x := atomic.AddUint64(&dseed, 0x9E3779B97F4A7C15)
 			x = (x ^ (x >> 30)) * 0xBF58476D1CE4E5B9
 			switch (x >> 20) % 8 {
@@ -707,7 +707,7 @@ func runC16(cs *c16Case, scratch string, idx int, sr *run.ShardResult) (class, d
 			case 1:
 				yield()
 			}
-		}
+		})
 		if err := e.Open(); err != nil {
 			return "inconclusive", "open: " + err.Error()
 		}
